@@ -22,7 +22,7 @@ ASSUMPTIONS = [
 ]
 COMPONENTS = c04.COMPONENTS
 
-WORDS = ["pan", "eks", "wye", "zee", "a b", "x,y", "q\"r", "", "0x1F", "-1.5e3", "long" * 12, "\u00fc\u00f1\u00ee", "tab\there", "semi;colon", "eq=ual", "pipe|bar", "#hash", "#x,y", "back\\slash",
+WORDS = ["pan", "eks", "wye", "zee", "a b", "x,y", "q\"r", "", "0x1F", "-1.5e3", "long" * 12, "\u00fc\u00f1\u00ee", "tab\there", "semi;colon", "eq=ual", "pipe|bar", "#hash", "#x,y", "y", "yx", ";", "b", "back\\slash",
          "C:\\Users\\", "trail\\", "\\", "a\\tb\\", "\\\\", "\\n\\"]
 
 
@@ -110,12 +110,29 @@ def make_doc(r):
             if r.chance(0.3):
                 d["nested"] = {"x": [1, 2, {"y": None}], "t": True}
             objs.append(d)
+        if r.chance(0.25):
+            # lines whose length sits on or next to a buffer-size boundary (the decoder's and the comment-stripping
+            # reader's buffers start at 512 bytes and double)
+            for o in objs[:r.randint(1, 3)]:
+                target = r.choice([511, 512, 513, 1023, 1024, 1025, 1535, 1536, 1537, 2047, 2048, 4095, 4096, 4097]) + r.choice([0, 0, -1, 1])
+                o["pad"] = ""
+                base = len(json.dumps(o))
+                if target > base:
+                    o["pad"] = "x" * (target - base)
         if fmt == "json":
             text = json.dumps(objs, indent=r.choice([None, 1]), ensure_ascii=r.chance(0.5))
-            if r.chance(0.3):
+            if r.chance(0.4):
                 text = "\n".join(json.dumps(o) for o in objs)  # concatenated objects without brackets
         else:
             text = "".join(json.dumps(o) + "\n" for o in objs)
+        if r.chance(0.3):
+            flags = flags + [r.choice(["--skip-comments", "--pass-comments", "--skip-comments-with", "--pass-comments-with"])]
+            if flags[-1].endswith("-with"):
+                flags.append(r.choice(["#", "//", "%%"]))
+            if r.chance(0.5):
+                ls = text.split("\n")
+                ls.insert(r.below(len(ls) + 1), (flags[-1] if not flags[-1].startswith("--") else "#") + " a comment")
+                text = "\n".join(ls)
     elif fmt in ("dkvp", "dkvp_opts"):
         ifs, ips = ",", "="
         if fmt == "dkvp_opts":
@@ -125,7 +142,7 @@ def make_doc(r):
                 flags = ["--ifs-regex", "[;|]+", "--ips-regex", "[:=]+"]
                 ifs, ips = ";", ":"
             if r.chance(0.3):
-                flags += ["--irs", r.choice([";\n", "\r\n", "|"])]
+                flags += ["--irs", r.choice([";\n", "\r\n", "|", ";;", "xy", "aab"])]
         if len(set(k for k, _ in recs[0])) < len(recs[0]) and r.chance(0.6):
             flags = flags + ["--no-dedupe-field-names"]
         irs = flags[flags.index("--irs") + 1] if "--irs" in flags else "\n"
@@ -140,6 +157,10 @@ def make_doc(r):
         flags = ["--ixtab"] + (["--ips", ":"] if r.chance(0.2) else [])
         ps = ":" if "--ips" in flags else " "
         text = "\n".join("".join("%s%s%s\n" % (k, ps, v or "-") for k, v in rec) for rec in recs)
+        if r.chance(0.2):
+            # XTAB's line separator is the IFS: a multi-character one
+            flags += ["--ifs", ";;"]
+            text = text.replace("\n", ";;")
     elif fmt in ("pprint", "pprint_barred"):
         hdr = [k for k, _ in recs[0]]
         rows = [hdr] + [[v or "-" for _, v in rec] for rec in recs]
